@@ -6,7 +6,20 @@
 . "$(dirname "$0")/env.sh"
 patch=$(readlink -f "$1"); tier=$2; shift 2
 id=$$
-wt=/tmp/mutwt-$id; out=/tmp/mutroot-$id
+out=/tmp/mutroot-$id
+# free space guard: every distinct worktree path adds a full set of build-cache entries
+avail=$(df --output=avail -k / | tail -1)
+if [ "$avail" -lt 25000000 ]; then GOCACHE=$GOCACHE go clean -cache 2>/dev/null; go clean -cache 2>/dev/null; fi
+# a fixed set of worktree paths (slots), so that the Go build cache is reused between trials
+slot=""
+for i in 0 1 2 3 4 5 6 7 8 9 10 11; do
+  exec {lockfd}>/tmp/mutslot-$i.lock
+  if flock -n $lockfd; then slot=$i; break; fi
+  exec {lockfd}>&-
+done
+[ -z "$slot" ] && { echo "no free trial slot"; exit 3; }
+wt=/tmp/mutwt-slot$slot
+git -C /repo worktree remove --force "$wt" 2>/dev/null; rm -rf "$wt"; git -C /repo worktree prune
 git -C /repo worktree add -q --detach "$wt" HEAD || exit 3
 cleanup() { git -C /repo worktree remove --force "$wt" 2>/dev/null; rm -rf "$out" /tmp/mut-$id.mod /tmp/mut-$id.sum; }
 trap cleanup EXIT
